@@ -4,6 +4,7 @@ prove mode : axioms + hyps + not(goal)  -> unsat means discharged.
 refute mode: quantified hypotheses instantiated on the index terms in use, library axioms grounded on the
              applications that occur, quantifiers dropped -> sat gives a candidate counterexample (arbiter: native replay).
 """
+import time
 import itertools, os, subprocess, tempfile, time, multiprocessing as mp
 import z3
 from .values import R6, REAL, INT, BOOL, PYMOD, PYDIV
@@ -312,6 +313,79 @@ def _check(assertions, timeout_ms, want_model=False, probes=None):
     return out
 
 
+
+def _to_sympy(e, atoms):
+    """z3 real / int arithmetic term -> sympy expression over opaque atoms (None if something else occurs)"""
+    import sympy
+    if z3.is_rational_value(e) or z3.is_int_value(e):
+        return sympy.Rational(e.numerator_as_long(), e.denominator_as_long()) if z3.is_rational_value(e) else sympy.Integer(e.as_long())
+    if z3.is_algebraic_value(e):
+        return None
+    k = e.decl().kind()
+    ch = e.children()
+    if k in (z3.Z3_OP_TO_REAL,):
+        return _to_sympy(ch[0], atoms)
+    if k == z3.Z3_OP_ADD:
+        xs = [_to_sympy(c, atoms) for c in ch]
+        return None if any(x is None for x in xs) else sympy.Add(*xs)
+    if k == z3.Z3_OP_MUL:
+        xs = [_to_sympy(c, atoms) for c in ch]
+        return None if any(x is None for x in xs) else sympy.Mul(*xs)
+    if k == z3.Z3_OP_SUB:
+        xs = [_to_sympy(c, atoms) for c in ch]
+        if any(x is None for x in xs):
+            return None
+        out = xs[0]
+        for x in xs[1:]:
+            out = out - x
+        return out
+    if k == z3.Z3_OP_UMINUS:
+        x = _to_sympy(ch[0], atoms)
+        return None if x is None else -x
+    if k == z3.Z3_OP_DIV:
+        a, b = _to_sympy(ch[0], atoms), _to_sympy(ch[1], atoms)
+        if a is None or b is None:
+            return None
+        atoms.setdefault("__den__", []).append(ch[1])
+        return a / b
+    if k == z3.Z3_OP_POWER and z3.is_int_value(ch[1]) and ch[1].as_long() >= 0:
+        a = _to_sympy(ch[0], atoms)
+        return None if a is None else a ** ch[1].as_long()
+    if k == z3.Z3_OP_UNINTERPRETED and e.sort().kind() in (z3.Z3_REAL_SORT, z3.Z3_INT_SORT):
+        key = e.sexpr()
+        if key not in atoms:
+            atoms[key] = sympy.Symbol(f"x{len(atoms)}")
+        return atoms[key]
+    return None
+
+
+def ring_identity(hyps, goal, timeout_ms=5000):
+    """Decides goals that are (conjunctions of) equalities between rational-function terms by normalisation in the field of rational functions (sympy cancel),
+    after z3 has shown from the hypotheses that no denominator vanishes. Returns True (identity, denominators non-zero), or None (not applicable / not an identity)."""
+    try:
+        import sympy
+    except Exception:
+        return None
+    eqs = [g for g in _flatten_and(goal)]
+    if not eqs or not all(z3.is_eq(g) and g.children()[0].sort().kind() in (z3.Z3_REAL_SORT, z3.Z3_INT_SORT) for g in eqs):
+        return None
+    atoms = {}
+    for g in eqs:
+        a, b = (_to_sympy(c, atoms) for c in g.children())
+        if a is None or b is None:
+            return None
+        try:
+            if sympy.cancel(sympy.together(a - b)) != 0:
+                return None
+        except Exception:
+            return None
+    for d in atoms.get("__den__", []):
+        r = _check(list(hyps) + [d == 0], timeout_ms)
+        if r["result"] != "unsat":
+            return None
+    return True
+
+
 def _job(idx):
     """prove (short budget) -> [cvc5] -> refute (ground) -> prove again (confirm budget) before a refutation is believed"""
     ob = _OBS[idx]
@@ -370,6 +444,13 @@ def _job(idx):
             return proved("z3")
         out["verdict"], out["model"], out["probes"] = "refuted", f.get("model", {}), f.get("probes", {})
     else:
+        # nonlinear real arithmetic that both solvers left open: identities of rational functions are decided by normalisation (no search, no budget to flip under load)
+        t0 = time.time()
+        ri = ring_identity(ax + ob.hyps, ob.goal) if is_nonlinear(ob.goal) or True else None
+        log.append(("ring-identity", "unsat" if ri else "n/a", round(time.time() - t0, 3)))
+        if ri:
+            out["verdict"], out["backend"] = "proved", "sympy-ring"
+            return out
         out["verdict"], out["reason"] = "unknown", f.get("reason") or r2.get("reason")
     return out
 
